@@ -221,6 +221,23 @@ def run(F, ck, tier):
         sb = skeleton.render(skeleton.tree(b[0].body, lambda n: classify(n, b[0])))
         ck.ob('R13.5', 'hash-skeleton:native~circuit', sa == sb, 'both: %s' % sa if sa == sb else
               'native hash_n_to_m_no_pad performs [%s] but the in-circuit one performs [%s]: the circuit computes a different hash than the native code' % (sa, sb), '%s:%d' % (b[0].file, b[0].line))
+    # R13.6 / R13.7: chunking independence of the challenger buffer; representation independence of the permutation inputs
+    ck.rule('R13.6', 'buffered outputs of a challenger are invalidated per buffered input (never for an empty absorb): chunking does not matter')
+    from . import c04 as _c04
+    _c04.invalidate_with_push(F, ck, 'R13.6')
+    ck.rule('R13.7', 'the raw (possibly non-canonical) representation of a field element is read only inside the Poseidon arithmetic kernels: every other hash / permutation input is canonicalised first')
+    nraw = 0
+    for fn in sorted(F.fns.values(), key=lambda f: f.qual):
+        if fn.crate not in ('plonky2', 'starky') or fn.body is None:
+            continue
+        allowed = '/hash/poseidon' in fn.file or '/hash/arch/' in fn.file
+        for x in walk(fn.body):
+            if x.get('k') == 'MCall' and x.get('n') == 'to_noncanonical_u64':
+                nraw += 1
+                if not allowed:
+                    ck.ob('R13.7', 'raw-repr:%s' % fn.qual, False, '%s feeds the raw representation of a field element (to_noncanonical_u64) into a hash / encoding: equal field values held in different u64 representations give different digests or challenges' % fn.qual, x.get('s'))
+    ck.ob('R13.7', 'raw-repr:confined', True, '%d raw-representation reads, all inside the Poseidon kernels' % nraw)
+    ck.floor('R13.7', 'raw-representation reads seen', nraw, 4)
     ck.decided += ['sponge discipline: overwrite at 0 in RATE chunks, permutation per chunk, outputs from the rate part, native/circuit hash skeleton agreement, compression layout, container rate/capacity']
     ck.undecided += ['equality of the optimised Poseidon permutation (fast partial rounds, frequency-domain MDS, u160 reduction, SIMD) with the textbook permutation on every input - numeric, not decided',
                      'collision resistance / random-oracle behaviour']
